@@ -18,7 +18,7 @@ META = {
         "BaseException failure, SIGINT to the main thread, KeyboardInterrupt raised in an asyncio or thread "
         "payload, shutdown() from an outside thread or a thread payload, MetaRunner.stop()} x populations of "
         "0-6 coroutine payloads per flavour (sleeping, spinning on zero-length sleeps, blocked, adopted a few "
-        "statements before the trigger, adopted from other payloads, adopted by a payload's own cleanup while the runtime terminates (hand-over chains 1-3 deep), services; cleanup none / synchronous 0-30 ms / "
+        "statements before the trigger, adopted from other payloads, adopted by a payload's own cleanup while the runtime terminates (hand-over chains 1-3 deep), adopted one per loop turn by dispatcher payloads that are still busy at the trigger, services; cleanup none / synchronous 0-30 ms / "
         "trio-shielded 0-300 ms) x 0-3 blocked thread payloads x trigger time jitter x line-level delay injection. "
         "Non-trivial = at least one coroutine payload was running at the trigger; distinct by scenario shape."
     ),
@@ -98,6 +98,11 @@ def gen_case(rnd, spec):
             if d == 0:
                 p["when"] = "queued"
             gen["payloads"].append(p)
+    # dispatchers: payloads that adopt one short-lived worker per loop turn, still busy when the trigger fires
+    for d in range(rnd.choice([0, 0, 1, 3])):
+        fl = rnd.choice(["asyncio", "asyncio", "trio"])
+        gen["payloads"].append({"id": "disp%d" % d, "flavour": fl, "when": "queued", "cleanup": {"kind": "none"},
+                                "program": [["dispatch", rnd.choice(["asyncio", "asyncio", "trio"]), 3000], ["beat", 0.02, None]]})
     for i in range(rnd.choice([0, 0, 1, 2, 3])):
         gen["payloads"].append({"id": "blk%d" % i, "flavour": "threading", "when": rnd.choice(["queued", "running"]),
                                 "program": [["block"]], "cleanup": {"kind": "none"}})
@@ -186,6 +191,21 @@ def judge(case, run, result):
             result.count("payloads_cancelled_and_cleaned_%s" % p["flavour"])
             if p.get("cleanup", {}).get("kind") == "shielded":
                 result.count("shielded_cleanups_finished_first")
+    # workers created on the fly by dispatchers: whoever started must have ended or been cancelled before accept ended
+    workers = {}
+    for e in run.events:
+        if e.get("gen") == 0 and ".w" in str(e.get("pid", "")) and e["kind"] in ("start", "end", "cancelled"):
+            workers.setdefault(e["pid"], []).append(e)
+    for wid, evs in workers.items():
+        kinds = [e["kind"] for e in evs]
+        if "start" in kinds and not ("end" in kinds or "cancelled" in kinds):
+            problems.append(("trigger %s: worker %s adopted by a dispatcher was started but neither finished nor cancelled when accept ended" % (trigger, wid), None))
+            break
+        if any(e["seq"] > end_seq for e in evs):
+            problems.append(("trigger %s: worker %s adopted by a dispatcher executed steps after accept had ended" % (trigger, wid), None))
+            break
+    if workers:
+        result.count("dispatcher_workers_judged", len(workers))
     result.count("running_coroutine_payloads_judged", checked)
     if run.of("block-start") and not run.of("accept-still-running"):
         result.count("terminations_with_blocked_threads")
@@ -215,7 +235,7 @@ def run_shard(spec):
 
 def finish(total, tier):
     need = ["running_coroutine_payloads_judged", "payloads_cancelled_and_cleaned_asyncio", "payloads_cancelled_and_cleaned_trio",
-            "shielded_cleanups_finished_first", "terminations_with_blocked_threads", "payloads_adopted_during_termination_started", "scenarios_driving_metarunner_directly"]
+            "shielded_cleanups_finished_first", "terminations_with_blocked_threads", "payloads_adopted_during_termination_started", "scenarios_driving_metarunner_directly", "dispatcher_workers_judged"]
     need += ["trigger_" + t for t in TRIGGERS if not t.startswith("systemexit")]
     for name in need:
         if not total.counters.get(name) and not total.violations:
